@@ -3,6 +3,7 @@ import EsbuildModel.Impl.Pieces
 import EsbuildModel.Impl.ToInt32
 import EsbuildModel.Impl.Compat
 import EsbuildModel.Impl.DataUrl
+import EsbuildModel.Impl.Quote
 
 open EsbuildModel
 
@@ -13,6 +14,7 @@ def dispatch (kernel : String) (args : List String) : String :=
   | "toint32" => ToInt32.driver args
   | "compat" => Compat.driver args
   | "dataurl" => DataUrl.driver args
+  | "quote" => Quote.driver args
   | _ => "bad-kernel"
 
 partial def loop (hin hout : IO.FS.Stream) : IO Unit := do
